@@ -15,7 +15,7 @@ RULE = ("extra-data trajectories of random shots (zeroed flat fire, arcing 5-40 
         "target heights 0.01-60 ft in any distance unit, increasing sequences for the monotonicity clause); a case = "
         "(shot, request); non-trivial when the target row is not the first/last row and at least one other row lies "
         "outside the target")
-MUST_OBSERVE = ["danger_spaces", "target_on_rising_branch", "target_on_falling_branch", "inclined_sight_line",
+MUST_OBSERVE = ["cases_under_other_preferred_units", "danger_spaces", "target_on_rising_branch", "target_on_falling_branch", "inclined_sight_line",
                 "bound_is_interior_row", "bound_is_end_row", "monotonic_pairs", "beyond_rejected", "plain_rejected", "explicit_look_angle_argument", "shot_reaimed_after_fire"]
 ASSUMPTIONS = ["'drop' is the row's drop relative to the sight line (target_drop), as in the reported DangerSpace rows"]
 DIST = si.DIMENSIONS["Distance"]
@@ -89,6 +89,12 @@ def bits_ne(a, b):
 
 def check_case(ctx, case):
     reset_globals()
+    if case.get("prefs"):
+        # the session prefers other units (as after loadMetricUnits / loadMixedUnits or a pybc.toml): every argument below is an
+        # explicit quantity, so nothing may change
+        for slot, unit in case["prefs"].items():
+            setattr(pb.PreferredUnits, slot, Unit[unit])
+        ctx.count("cases_under_other_preferred_units")
     shot = build.shot(case["shot"])
     calc = Calculator()
     if case.get("zero_ft"):
@@ -170,7 +176,11 @@ def gen_case(rng):
         hs = sorted(rng.choice([rng.uniform(0.01, 0.5), rng.uniform(0.5, 6), rng.uniform(6, 60)]) for _ in range(3))
         queries.append([rng.choice([0.0, 1.0, rng.uniform(0.02, 0.5), rng.uniform(0.5, 0.98)]),
                         [[round(h, 4), rng.choice(DIST)] for h in hs]])
-    return {"shot": s, "zero_ft": zero_ft, "range_ft": range_ft, "step_ft": step, "queries": queries,
+    prefs = None
+    if rng.random() < 0.25:
+        prefs = {"distance": rng.choice(DIST), "target_height": rng.choice(DIST), "drop": rng.choice(DIST),
+                 "angular": rng.choice(si.DIMENSIONS["Angular"]), "adjustment": rng.choice(si.DIMENSIONS["Angular"])}
+    return {"shot": s, "zero_ft": zero_ft, "range_ft": range_ft, "step_ft": step, "queries": queries, "prefs": prefs,
             "look_arg_deg": rng.choice([None, None, 0.0, round(rng.uniform(-30, 30), 1)]),
             "reaim_deg": rng.choice([None, None, None, round(rng.uniform(-20, 20), 1)])}
 
